@@ -83,14 +83,16 @@ Definition rebuilt_tag (tag : Z) : bool :=
    metrics the encoder started from.  PARTIAL with respect to C11: the rebuilt glyf/loca are the
    output of the modelled writers on exactly `gs` (G, offs, L below); that this output, read as a
    TrueType glyf table, describes `gs` again is checked by correspondence (the harness parses it
-   with its own reader), not proved here.  hmtx is proved to be the plain serialisation of `h`. *)
+   with its own reader), not proved here.  hmtx is proved to be the plain serialisation of `h`.
+   The hypothesis `Z.land flags 2 = 0` (the trailing leftSideBearing[] array is present in the
+   stream) excludes the known finding C11-hmtx-lsb-absent. *)
 Theorem transformed_font_tables_partial :
-  forall m ts flavor index gs h gt lt ht hdt mt hht head long G offs L,
+  forall m ts flavor index gs h flags gt lt ht hdt mt hht head long G offs L,
   Forall tabspec_ok ts -> NoDup (map t_tag ts) ->
   In gt ts -> t_tag gt = tag_glyf -> t_transformed gt = true -> encodes_glyf_table m gs (t_data gt) ->
   In lt ts -> t_tag lt = tag_loca -> t_transformed lt = true ->
   In ht ts -> t_tag ht = tag_hmtx -> t_transformed ht = true ->
-  encodes_hmtx gs h (t_data ht) -> hmtx_ok gs h ->
+  encodes_hmtx_flags flags gs h (t_data ht) -> Z.land flags 2 = 0 -> hmtx_ok gs h ->
   In hdt ts -> t_tag hdt = tag_head -> t_transformed hdt = false -> read_head (t_data hdt) = Ok (head, long) ->
   In mt ts -> t_tag mt = tag_maxp -> t_transformed mt = false -> read_maxp (t_data mt) = Ok (len gs) ->
   In hht ts -> t_tag hht = tag_hhea -> t_transformed hht = false -> read_hhea (t_data hht) = Ok (len (fst h)) ->
@@ -102,8 +104,8 @@ Theorem transformed_font_tables_partial :
          (tag_head, write_head head (long || (65535 <? last offs 0 / 2))); (tag_loca, L)]
         ++ map (fun t => (t_tag t, t_data t)) (filter (fun t => negb (rebuilt_tag (t_tag t))) ts)).
 Proof.
-  intros m ts flavor index gs h gt lt ht hdt mt hht head long G offs L Hok Hnd
-         Hgt Egt Tgt Hglyf Hlt Elt Tlt Hht Eht Tht Hhmtx Hhok Hhd Ehd Thd Rhd Hmt Emt Tmt Rmt Hhh Ehh Thh Rhh
+  intros m ts flavor index gs h flags gt lt ht hdt mt hht head long G offs L Hok Hnd
+         Hgt Egt Tgt Hglyf Hlt Elt Tlt Hht Eht Tht Hhmtx Hbit Hhok Hhd Ehd Thd Rhd Hmt Emt Tmt Rmt Hhh Ehh Thh Rhh
          Wg Wl.
   destruct (find_entry_unique ts gt Hok Hnd Hgt) as (eg & Fg & Dg & Lg).
   destruct (find_entry_unique ts lt Hok Hnd Hlt) as (el & Fl & Dl & Ll).
@@ -123,7 +125,7 @@ Proof.
   rewrite (glyf_transform_roundtrip m gs _ Hglyf). cbn [bind].
   rewrite Dh. cbn [bind].
   destruct Hglyf as (cs & bm & ifmt & oflags & Hcs & _).
-  rewrite (hmtx_transform_roundtrip gs h _ Hhok (encoded_glyphs_readable m gs cs Hcs) Hhmtx). cbn [bind].
+  rewrite (hmtx_transform_roundtrip flags gs h _ Hhok (encoded_glyphs_readable m gs cs Hcs) Hhmtx Hbit). cbn [bind].
   rewrite Wg. cbn [bind]. rewrite Wl. cbn [bind app].
   pose proof (entries_data_all ts [] [] Hok) as Hd. cbn [app] in Hd. rewrite app_nil_r in Hd.
   change (len (block_of [])) with 0 in Hd.
